@@ -87,6 +87,10 @@ def gen_case(rng):
     case = {"events": events, "n_clients": nclients}
     if rng.random() < 0.15:
         case["werror"] = True        # the application runs with -W error: the tracker inherits the interpreter flags
+    if rng.random() < 0.2:
+        # fault: the k-th unlink of a file fails once with PermissionError (a last user that has not quite closed it
+        # yet): the deletion must be retried, not given up
+        case["unlink_eperm_at"] = rng.randint(0, 3)
     if fs_ops:
         # paths that do not exist yet when the tracker starts (registered before they are created, or never created)
         case["absent"] = sorted(n for n in FILES + FOLDERS if rng.random() < (0.5 if n in focus else 0.2))
@@ -495,6 +499,20 @@ def run_case(case):
         saved = sys.stdin, sys.stdout
         sys.stdin = io.StringIO(); sys.stdout = io.StringIO()
         raised = None
+        eperm = [0, 0]
+        if case.get("unlink_eperm_at") is not None:
+            import joblib._memmapping_reducer as _jmr, types as _types
+            real_unlink = os.unlink
+
+            def flaky_unlink(path_, *a_, **k_):
+                k = eperm[0]; eperm[0] += 1
+                if k == case["unlink_eperm_at"]:
+                    eperm[1] += 1
+                    raise PermissionError(13, "Permission denied", str(path_))
+                return real_unlink(path_, *a_, **k_)
+            _jmr.os = _types.SimpleNamespace(**{n_: getattr(os, n_) for n_ in dir(os) if not n_.startswith("__")})
+            _jmr.os.unlink = flaky_unlink
+            _jmr.time = _types.SimpleNamespace(sleep=lambda d: None, time=__import__("time").time)
         if case.get("werror"):
             warnings.simplefilter("error")
         try:
@@ -538,7 +556,7 @@ def run_case(case):
                 "switches": 0, "sim_time": 0.0,
                 "faults": {k: v for k, v in {"client_killed": sum(1 for e in case["events"] if e[0] == "kill"),
                                               "malformed_or_unbalanced_line": sum(1 for e in case["events"] if e[0] == "line" and (e[2] == "RAW" or e[3] in ("nope", "decoy", "decoydir"))),
-                                              "client_side_create_or_remove": fs_events[0], "warnings_are_errors_in_the_tracker": 1 if case.get("werror") else 0,
+                                              "client_side_create_or_remove": fs_events[0], "warnings_are_errors_in_the_tracker": 1 if case.get("werror") else 0, "transient_permission_error_at_unlink": eperm[1],
                                               "registered_path_absent_at_start": len(case.get("absent") or ())}.items() if v},
                 "probes": {"refcount_zero_while_others_held": state["zero_while_other_held"], "killed_client_left_registrations": state["killed_holding"]},
                 "nontrivial": bool(state["zero_while_other_held"] or state["killed_holding"]),
